@@ -144,7 +144,9 @@ def truth_tags(s, m, n):
         tags.append("repeated_nonzero_sv")
     ext = list(nz) + ([0.0] if max(m, n) > rank else [])     # a null space on either side acts as the singular value 0
     gaps = [abs(ext[i] - ext[i + 1]) / smax for i in range(len(ext) - 1)]
-    gaps = [g for g in gaps if g > 1e-9]
+    # gaps <= 1e-9 between two non-zero values are "repeated" (tagged above); the gap between the smallest non-zero value and an
+    # existing null space always counts, however small: a singular value of 1e-10 ||A|| next to a null space is a cluster with 0
+    gaps = [g for i, g in enumerate(gaps) if g > 1e-9 or (i == len(gaps) - 1 and len(ext) > len(nz))]
     if gaps and min(gaps) < 1e-2:
         tags.append(f"relgap={min(gaps):.3e}")
     if m - rank >= 2:
